@@ -113,13 +113,15 @@ def plan(tier, seed):
             s = seed * 1000003 + rep * 131 + (victim == "client")
             for space in ("1rtt", "handshake"):
                 fl.append({"gen": "flood_crypto", "victim": victim, "space": space, "variant": "gap", "n": 3000 * scale, "seed": s})
-            fl.append({"gen": "flood_crypto", "victim": victim, "space": "1rtt", "variant": "contig", "n": 700 * scale, "seed": s})
+            fl.append({"gen": "flood_crypto", "victim": victim, "space": "1rtt", "variant": "contig", "n": min(700 * scale, 3000), "seed": s})
             for variant in ("same", "same_burst", "vary_probe", "vary_promote", "few_burst"):
-                fl.append({"gen": "flood_challenge", "victim": victim, "variant": variant, "n": 6000 * scale, "seed": s})
+                # R looks a source address up linearly: keep the many-address runs below 2*10^4 datagrams
+                nn = min(6000 * scale, 20000) if variant.startswith("vary") else 6000 * scale
+                fl.append({"gen": "flood_challenge", "victim": victim, "variant": variant, "n": nn, "seed": s})
             for variant in ("noack", "burst", "ack", "fill"):
                 fl.append({"gen": "flood_ncid", "victim": victim, "variant": variant, "n": 5000 * scale, "seed": s})
             for variant in ("compliant", "hostile_conn", "hostile_count", "compliant_uni"):
-                fl.append({"gen": "flood_streams", "victim": victim, "variant": variant, "n": 1500 * scale, "seed": s})
+                fl.append({"gen": "flood_streams", "victim": victim, "variant": variant, "n": min(1500 * scale, 6000), "seed": s})
     # interleave so that a budget cut-off loses a bit of everything
     out = []
     k = max(1, len(b) // max(1, len(fl)))
